@@ -1,6 +1,7 @@
 package sym
 
 import (
+	"runtime"
 	"fmt"
 	"go/types"
 	"math"
@@ -459,8 +460,18 @@ func (x *Exec) registerLib() {
 			return &Struct{}, true
 		}, mods: noMods}
 	}
-	x.lib["(*go/token.Position).IsValid"] = &libFn{apply: func(f *Frame, st *State, ins ssa.Instruction, args []Value) (Value, bool) {
+	x.lib["(*go/token.Position).IsValid"] = &libFn{apply: func(f *Frame, st *State, ins ssa.Instruction, args []Value) (res Value, ok bool) {
 		x.note("library spec: token.Position.IsValid() == (Line > 0)")
+		defer func() {
+			// a Position held as an opaque value (the result of an unknown call kept in a local): no
+			// field to read, the answer is unknown
+			if r := recover(); r != nil {
+				if _, isRT := r.(runtime.Error); !isRT {
+					panic(r)
+				}
+				res, ok = B.Fresh("pos_isvalid", smt.Bool), true
+			}
+		}()
 		fn := x.curCallee
 		stT := fn.Params[0].Type().Underlying().(*types.Pointer).Elem()
 		su := stT.Underlying().(*types.Struct)
